@@ -140,13 +140,6 @@ Section SharedProofs.
   Qed.
 
   (* Force actions anywhere in a program change nothing the thread can observe *)
-  Fixpoint no_force (p : list action) : list action :=
-    match p with
-    | [] => []
-    | Force :: r => no_force r
-    | a :: r => a :: no_force r
-    end.
-
   Lemma run_local_no_force : forall p (l : local), run_local l p = run_local l (no_force p).
   Proof.
     induction p as [| a p IH]; intro l; [reflexivity |].
@@ -268,12 +261,12 @@ Proof.
 Qed.
 
 Lemma fold_remove_same :
-  forall ks m m', same_content stdkey_eqb m m' ->
+  forall ks (m m' : list (stdkey * span)), same_content stdkey_eqb m m' ->
     same_content stdkey_eqb (fold_left (fun acc k => remove_key stdkey_eqb k acc) ks m)
                             (fold_left (fun acc k => remove_key stdkey_eqb k acc) ks m').
 Proof.
   induction ks as [| k ks IH]; intros m m' H; cbn [fold_left]; [exact H |].
-  apply IH. apply remove_key_same. exact H.
+  apply IH. apply remove_key_same; [exact stdkey_eqb_spec | exact H].
 Qed.
 
 Lemma time_override_same :
@@ -283,7 +276,8 @@ Proof.
   intros m m' new H. unfold time_override_check.
   rewrite (locs_same m m' [new] H).
   destruct (locs m' [new]) as [| o rest]; [exact I |].
-  destruct new; cbn [tocheck_same]; try exact I.
-  all: split; [apply fold_remove_same; exact H |].
-  all: match goal with |- context [locs m ?ks] => rewrite (locs_same m m' ks H) end; reflexivity.
+  assert (E1 := locs_same m m' [KPrepTime; KCookTime] H).
+  assert (E2 := locs_same m m' [KTime] H).
+  destruct new; cbn [tocheck_same]; try exact I;
+    (split; [apply fold_remove_same; exact H | rewrite ?E1, ?E2; reflexivity]).
 Qed.
